@@ -142,6 +142,17 @@ def _m_duplicate_items(case, clause, detail, _f):
             and case["post"]["children"][p - 1].count(c) == 2)
 
 
+def _struct_eq(kinds, children, a, b):
+    '''Node.__eq__ on the abstract pre-state: same kind and pairwise equal
+    children (in these universes all Literals / References of a kind carry the
+    same value / symbol).'''
+    if kinds[a - 1] != kinds[b - 1]:
+        return False
+    ra, rb = children[a - 1], children[b - 1]
+    return len(ra) == len(rb) and all(
+        _struct_eq(kinds, children, x, y) for x, y in zip(ra, rb))
+
+
 def _m_remove_equal(case, clause, _detail, _f):
     # children.remove(x) deletes the first node EQUAL to x (structural __eq__)
     # but unlinks x itself
@@ -154,7 +165,7 @@ def _m_remove_equal(case, clause, _detail, _f):
     for pos, t in enumerate(row):
         if t == c:
             return False        # x itself came first: not this defect
-        if kinds[t - 1] == kinds[c - 1]:
+        if _struct_eq(kinds, pre["children"], t, c):
             return (post["children"][p - 1] == row[:pos] + row[pos + 1:]
                     and post["parent"][c - 1] == 0
                     and post["parent"][t - 1] == p)
@@ -402,7 +413,10 @@ def run(tier, corrupt=None):
         meta = []               # per record: (uni name, source, model key, history)
         models = {}
         jobs_all = []
-        for uni, res, trans in dumps:
+        n_dumped = 0
+        while dumps:
+            uni, res, trans = dumps.pop(0)
+            n_dumped += len(trans)
             jobs, model, nstates = _jobs_of_dump(uni, trans)
             kinds_table.append(uni["kinds"])
             u = len(kinds_table)
@@ -431,7 +445,7 @@ def run(tier, corrupt=None):
                 meta.append((uname, "exhaustive", (_key(job[1]), tuple(rec[2])),
                              job[2]))
         n_exh = len(records)
-        n_dumped = sum(len(t) for _, _, t in dumps)
+        del results
         if n_exh + cov["unsupported"] != n_dumped:
             raise core.MachineryError("replay lost transitions")
 
